@@ -503,6 +503,18 @@ func (c *Ctx) ruleExistentialScan(rule string) {
 				for _, a := range po.Of(pr.Results[0]).Alts() {
 					switch {
 					case isConst(a, "false"):
+						// "not this one" only because the secret does not parse or is not SIG_ALL
+						if len(Returns(pred)) > 1 {
+							elp := "P:" + pred.Params[0].Name() + ".Secret"
+							if ok2, _ := po.Requires(pr, &Cond{Name: "element is not a NUT-10 secret, or not SIG_ALL", Match: func(ft *Fact, _ *Origins) bool {
+								if ft.Kind == "errnil" && !ft.Pos && isCall(ft.A, fnDeser) && exprIs(arg(ft.A, 0), elp) {
+									return true
+								}
+								return ft.Kind == "bool" && !ft.Pos && ft.A.String() == want
+							}}); !ok2 {
+								okLib, why = false, "predicate answers false for a reason other than an unparsable secret or a missing SIG_ALL flag"
+							}
+						}
 					case a.String() == want:
 						nSig++
 					case isConst(a, "true"):
@@ -533,6 +545,28 @@ func (c *Ctx) ruleExistentialScan(rule string) {
 		R.Check(rule, fk, "scan over all inputs", c.P.Pos(f.Pos()), false, "the SIG_ALL scan ranges over the whole input list", why)
 		return
 	}
+	// no element is passed over: an iteration moves on to the next input only because this one's secret is not a
+	// NUT-10 secret or because it is not SIG_ALL - never because of its kind, its position or anything else
+	{
+		el := "elem(P:" + f.Params[0].Name() + ").Secret"
+		skipOK := &Cond{Name: "element is not a NUT-10 secret, or not SIG_ALL", Match: func(ft *Fact, _ *Origins) bool {
+			if ft.Kind == "errnil" && !ft.Pos && isCall(ft.A, fnDeser) && exprIs(arg(ft.A, 0), el) {
+				return true
+			}
+			return ft.Kind == "bool" && !ft.Pos && isCall(ft.A, fnIsSigAll) && isCall(arg(ft.A, 0), fnDeser) && exprIs(arg(arg(ft.A, 0), 0), el)
+		}}
+		cut := NewCut()
+		for e := range o.AcceptEdges(skipOK) {
+			cut.Edges[e] = true
+		}
+		body := loop.Header.Succs[loop.BodySucc]
+		reach, path := Reach(Point{body, 0}, Point{loop.Header, 0}, cut)
+		why := ""
+		if reach {
+			why = "an input is passed over although it may be SIG_ALL: " + c.P.PathString(path)
+		}
+		R.Check(rule, fk, "no input is passed over", c.P.Pos(f.Pos()), !reach, "the scan moves on to the next input only when this one is not a NUT-10 secret or not SIG_ALL", why)
+	}
 	exhaust := NewCut()
 	exhaust.Edges[Edge{loop.Header, loop.ExitSucc}] = true
 	for _, r := range Returns(f) {
@@ -559,7 +593,7 @@ func rulesC12(c *Ctx) {
 	R := c.R
 	R.Rule("R1", "P2PK verifier accepts only through the spending alternatives, with their side conditions and wiring", 8)
 	R.Rule("R2", "HasValidSignatures: counted only when verified, matched key always removed, result count >= n", 3)
-	R.Rule("R3", "SIG_ALL scan returns false only after exhausting the list", 2)
+	R.Rule("R3", "SIG_ALL scan returns false only after exhausting the list and passes over no input", 2)
 	R.Rule("R4", "swap signs only behind {no SIG_ALL, outputs verified}; melt pays only behind no SIG_ALL", 3)
 	R.Rule("R5", "output verifier: all inputs SIG_ALL with equal keys and n_sigs; every output enough valid non-duplicate signatures", 6)
 	R.Rule("R6", "signing helpers hash the message the verifiers check", 2)
@@ -570,6 +604,7 @@ func rulesC12(c *Ctx) {
 	c.ruleExistentialScan("R3")
 	c.ruleSigAllOps("R4")
 	c.ruleOutputVerifier("R5", false)
+	c.ruleDecodeIntoFreshValue("R5", "mint.verifyBlindedMessages")
 	c.ruleOutputSignerKeys("R5")
 	c.ruleHelperAgreement("R6", false)
 	c.ruleKindDispatch("R7")
@@ -587,6 +622,7 @@ func rulesC13(c *Ctx) {
 	c.vocabProblems("R4")
 	c.ruleLockVerifier("R1", fnVerifyHTL, true)
 	c.ruleOutputVerifier("R2", true)
+	c.ruleDecodeIntoFreshValue("R2", "mint.verifyBlindedMessages")
 	c.ruleOutputSignerKeys("R2")
 	c.ruleHelperAgreement("R3", true)
 	c.ruleCountingDiscipline("R4")
@@ -1009,6 +1045,12 @@ func (c *Ctx) ruleKindDispatch(rule string) {
 			ok, why := c.RequireAt(v, cd)
 			R.Check(rule, fk, k.name+" input <= its verifier succeeded", c.P.InstrPos(v), ok, "an input of kind "+k.name+" is accepted only when "+k.fn+"(input, parsed secret) returned nil", why)
 		}
+		// and no input gets around the dispatch: the validator accepts only when this held for EVERY input
+		// (an iteration that is skipped - a cache hit, a fast path - never asked the lock verifier)
+		all := &Cond{Name: "every input: not a " + k.name + " input, or its lock verifier succeeded", ForAll: "P:" + f.Params[1].Name(), Match: cd.Match}
+		okAll := c.P.OriginsOf(f).SuccessCut(all)
+		R.Check(rule, fk, "accept <= every "+k.name+" input passed its verifier", c.P.Pos(f.Pos()), okAll,
+			"the validator returns nil only when every input that is a "+k.name+" secret was accepted by "+k.fn, "a success return is reachable on which some input was not dispatched")
 	}
 }
 
@@ -1113,4 +1155,74 @@ func typeOfEx(e *Ex) string {
 		return ""
 	}
 	return e.V.Type().String()
+}
+
+// ruleDecodeIntoFreshValue: a decoder (encoding/json, cbor) leaves the members of its destination that the input
+// does not mention untouched. A destination that is decoded into once per iteration of a loop therefore has to be a
+// fresh variable of that iteration (declared in the loop body) or be reset in the iteration before the decode;
+// otherwise what an earlier element carried (a preimage, signatures) is seen again for an element that omits it.
+// Examined: every decode call inside a loop in the functions that make up fn (the function, its closures, helpers
+// new on this tree) whose destination is a local variable.
+func (c *Ctx) ruleDecodeIntoFreshValue(rule string, fnKey string) {
+	R := c.R
+	f := c.fn(rule, fnKey)
+	if f == nil {
+		return
+	}
+	n := 0
+	for _, g := range c.OpFuncs(f) {
+		o := c.P.OriginsOf(g)
+		for _, ci := range Calls(g) {
+			d := c.P.Describe(ci)
+			di := -1
+			switch {
+			case d.Name == "encoding/json.Unmarshal" || strings.HasSuffix(d.Name, "cbor.Unmarshal") || strings.HasSuffix(d.Name, "cbor/v2.Unmarshal"):
+				di = 1
+			case strings.HasSuffix(d.Name, ".Decode") && (strings.HasPrefix(d.Name, "encoding/json.") || strings.Contains(d.Name, "cbor")):
+				di = 0
+			}
+			if di < 0 || di >= len(d.Args) {
+				continue
+			}
+			l := o.Loops.InnermostContaining(ci.Block())
+			if l == nil {
+				continue
+			}
+			dst := d.Args[di]
+			if mi, ok := dst.(*ssa.MakeInterface); ok {
+				dst = mi.X
+			}
+			root, _ := addrRoot(dst)
+			al, ok := root.(*ssa.Alloc)
+			if !ok {
+				continue // not a local variable of this function
+			}
+			n++
+			fresh := l.Blocks[al.Block()]
+			why := ""
+			if !fresh {
+				// reset in the iteration: a store of a whole value to the variable on every path from the body entry to the decode
+				cut := NewCut()
+				for _, b := range g.Blocks {
+					if !l.Blocks[b] {
+						continue
+					}
+					for _, in := range b.Instrs {
+						if st, ok := in.(*ssa.Store); ok && st.Addr == ssa.Value(al) {
+							cut.Barriers[st] = true
+						}
+					}
+				}
+				body := l.Header.Succs[l.BodySucc]
+				reach, path := Reach(Point{body, 0}, PointOf(ci), cut)
+				fresh = !reach && len(cut.Barriers) > 0
+				if !fresh {
+					why = "the destination is declared outside the loop and not reset in the iteration (members the input omits keep what an earlier element set): " + c.P.PathString(path)
+				}
+			}
+			R.Check(rule, c.P.FuncKey(g), "decode into a fresh value each iteration ("+short(o.Of(d.Args[0]).String(), 60)+")", c.P.InstrPos(ci), fresh,
+				"a value decoded once per element starts from the zero value for every element", why)
+		}
+	}
+	_ = n
 }
